@@ -60,6 +60,8 @@ def run(ctx):
             ctx.broken.append("model driver failed on CHECK/ASYNC/UAF rc=%s %s" % (rc, err[-200:]))
 
     jobs = [dict(sources=["harness.cpp"], out="h_" + b, backend=b, sanitize="asan") for b in BACKENDS]
+    # the wake-up scenario is timing-sensitive: an un-instrumented -O2 build of the internal backend for it
+    jobs.append(dict(sources=["harness.cpp"], out="hw_internal", backend="internal", sanitize=None, opt="-O2"))
     tsan = []
     if ctx.thorough():
         tsan = ["omp"]
@@ -87,7 +89,7 @@ def run(ctx):
         return rc, lines, err
 
     trace_cases = []   # (backend, args, line, fields)
-    parked_short, pipe_full_inline = [], {}
+    parked_short, pipe_full_inline, wake_calls = [], {}, {}
     for b in BACKENDS:
         # ---- schedule(): bursts, exactly once after quiescence, no caller action
         for n in bursts:
@@ -132,6 +134,21 @@ def run(ctx):
                         pipe_full_inline[" ".join(args)] = int(f.get("ran_on_caller", "0"))
                     if b != "debug":
                         ctx.nontriv(("parkburst", b, T, n))
+        # ---- wake-up: one schedule() at a time, timed (sweep 0..100 us) to the idle worker's spin-to-sleep transition
+        for T, ms in ((2, ctx.pick(5000, 30000)), (3, ctx.pick(1500, 10000))) if b == "internal" else ((2, ctx.pick(400, 2000)),):
+            args = ["wakeup", str(T), str(ms)]
+            rc, lines, err = run_mode(b, args, timeout=120 + ms // 1000, prefix="hw_" if b == "internal" else "h_")
+            f = kv(lines[-1]) if lines else {}
+            ctx.count(int(f.get("calls", "0")))
+            wake_calls[b + ":T=%d" % T] = int(f.get("calls", "0"))
+            if rc != 0 or not f:
+                bad("schedule-crash", b, args, "harness rc=%d: %s" % (rc, san_summary(err)), "no crash, no hang", err)
+            elif f.get("lost") != "0":
+                bad("schedule-lost-wakeup", b, args, lines[-1] + "   [%s build, g++ %s]" % (("un-instrumented", "-O2") if b == "internal" else ("ASan", "-O1")),
+                    "every schedule()d closure is executed within 2 s while the caller stays idle (no lost wake-up): call number %s, issued "
+                    "%s us after the previous closure finished, was not run" % (f.get("calls"), f.get("delay_us_of_lost_call")))
+            else:
+                ctx.nontriv(("wakeup", b, T))
         # ---- a scheduled closure that schedules a same-type closure and then waits inside the tasking system
         for T in (2, 3):
             args = ["nested", str(T), str(ctx.pick(8, 30))]
@@ -278,6 +295,7 @@ def run(ctx):
 
     ctx.cov["parkburst_workers_not_all_parked"] = parked_short
     ctx.cov["internal_pipe_full_closures_run_inline_by_writer"] = pipe_full_inline
+    ctx.cov["wakeup_calls_swept"] = wake_calls
     ctx.cov["mode_histogram"] = hist
     ctx.cov["backends"] = BACKENDS
     ctx.cov["burst_sizes"] = bursts
@@ -285,7 +303,7 @@ def run(ctx):
     ctx.cov["client_scripts"] = sorted(NGETS)
     ctx.rule = ("per backend (TBB, OpenMP, Internal, Debug; ASan+UBSan): schedule() bursts of %s closures owning heap state (exactly-once "
                 "after quiescence, caller idle); async() x %d over int/long string/vector/slow-logging type (+ outstanding futures); "
-                "parkburst (workers parked, 300/1000 pending closures > pipe size); nested (a scheduled closure schedules a same-type closure and waits in AsyncTask::get / parallel_for); AsyncTask<T> x %d repetitions x 6 client scripts x task durations {0,2,12} ms over 5 result types incl. a "
+                "wakeup (one schedule() at a time, delay swept 0..100 us around the worker's spin-to-sleep transition, each closure must run within 2 s); parkburst (workers parked, 300/1000 pending closures > pipe size); nested (a scheduled closure schedules a same-type closure and waits in AsyncTask::get / parallel_for); AsyncTask<T> x %d repetitions x 6 client scripts x task durations {0,2,12} ms over 5 result types incl. a "
                 "lifetime-instrumented payload whose slot trace is validated by the extracted model; destroy-while-running x %d; "
                 "one-thread schedule. non-trivial = a case with a non-trivially-constructible result type or a task outliving "
                 "the constructor, or a burst > 1" % (bursts, areps, treps, dreps))
@@ -304,6 +322,8 @@ def run(ctx):
     ctx.assumptions += [
         "ORACLES (contract stated as Section hypotheses, measured by the harness): tbb::task_arena::enqueue, tbb::task_group, "
         "detached std::thread, std::packaged_task/std::future, the enkiTS LockLessMultiReadPipe (each written piece popped exactly once)",
+        "the wake-up handshake is modelled as a 2-thread store-buffer litmus (x86-TSO, one buffer slot per thread); that AtomicAdd is a full "
+        "barrier and that the fences found in WakeThreads / WaitForTasks are the ones on the publish-then-check paths is read off the AST",
         "'eventually' needs a fair OS scheduler and, on the internal backend, at least one worker thread (1-thread case: known finding)",
         "nested execution of scheduled closures is modelled to depth 1 and checked on 7 shapes only (theorem ..._nested_not_freed_on_stack_instances); "
         "the harness 'nested' scenario exercises it on the real code",
